@@ -8,9 +8,10 @@ import numpy as np
 from harness import common as C
 from harness import fm_common as FM
 
-RULE = ('real TransmissionModel, 2-40 layers, 1-6 wavenumbers, 1-4 trace gases with in-memory tables whose magnitude '
+RULE = ('real TransmissionModel (compact and inflated atmospheres: top at 0.01..several Rp), 2-40 layers, 1-6 wavenumbers, 1-4 trace gases with in-memory tables whose magnitude '
         'is drawn per case from {0, 1e-40..1e-34, 1e-28..1e-22, 1e-18..1} m2, isothermal/array/NPoint temperatures, '
-        'optional CIA/Rayleigh/cloud/flat haze/Lee haze, both path methods. distinct non-trivial = distinct '
+        'optional CIA/Rayleigh/cloud/flat haze/Lee haze, both path methods; every 5th case reuses ONE model object '
+        'across 2-3 parameter changes through model[name]=value (T, Rp, Mp, pressure range, abundances, cloud top). distinct non-trivial = distinct '
         '(layers, contribution multiset, regime, method) with at least one column neither transparent nor saturated')
 ASSUMPTIONS = ['3-D line/sphere geometry (taurex/util/geometry.py) is not modelled: model.path_length is compared with '
                'the closed-form chord differences (rel 1e-9 + 1e-11 of the total chord)',
@@ -74,8 +75,10 @@ CONTRIB_CHOICES = ['cia', 'rayleigh', 'clouds', 'flatmie', 'leemie']
 def gen_case(rng, k):
     regime = ['zero', 'thin', 'mid', 'thick'][k % 4]
     nl = int(rng.integers(2, 41)) if rng.random() < 0.8 else int(rng.integers(2, 5))
-    spec = FM.gen_spec(rng, nlayers=nl, regime=regime, same_grid=bool(rng.random() < 0.8))
-    spec['new_path_method'] = bool((k // 4) % 2)
+    # quota of inflated atmospheres (top at 0.4 .. several Rp), mostly with the 3-D geometry path method
+    ext = bool((k // 8) % 3 == 2)
+    spec = FM.gen_spec(rng, nlayers=nl, regime=regime, same_grid=bool(rng.random() < 0.8), extended=ext)
+    spec['new_path_method'] = bool((k // 4) % 2) or (ext and bool(rng.random() < 0.5))
     cs = []
     if rng.random() < 0.9:
         cs.append(dict(type='absorption'))
@@ -145,21 +148,143 @@ def trans_close(a, b, rel=1e-9):
     return bool(np.all(np.abs(a - b) <= rel * (1 + np.abs(tau)) * np.maximum(a, b) + 1e-300))
 
 
-def run_real(spec):
-    m = FM.build_model(spec)
+def observe(m):
+    """run the model object as it is now and collect what the kernels used"""
     wn, depth, trans, _ = m.model()
     p = FM.profiles(m)
     contribs = [(KINDS.get(type(c).__name__, 0), np.array(c.sigma_xsec, float)) for c in m.contribution_list]
-    return m, np.asarray(wn, float), np.asarray(depth, float), np.asarray(trans, float), p, contribs
+    return np.asarray(wn, float), np.asarray(depth, float), np.asarray(trans, float), p, contribs
+
+
+def run_real(spec):
+    m = FM.build_model(spec)
+    return (m,) + observe(m)
 
 
 def eval_case(ctx, spec, do_scale=True):
-    sm = small(spec)
+    if spec.get('kind') == 'reuse':
+        return eval_reuse(ctx, spec)
     try:
         m, wn, depth, trans, p, contribs = run_real(spec)
     except Exception as e:
         ctx.violation('raises:' + type(e).__name__, 'TransmissionModel raised %r on a valid atmosphere' % (e,), spec)
         return
+    judge(ctx, spec, spec, m, (wn, depth, trans, p, contribs), do_scale, 'fresh')
+
+
+# ---- one model object, parameters changed through the fitting-parameter setters between runs (what every
+# ---- retrieval iteration does): the result must be the documented integral for the NEW profiles
+def apply_step(spec, m, step):
+    """set `model[name] = value` for every entry and mirror it in a copy of the spec"""
+    spec = dict(spec, temperature=dict(spec['temperature']), gases=[dict(g) for g in spec['gases']],
+                contributions=[dict(c) for c in spec['contributions']])
+    for name, value in step.items():
+        m[name] = value
+        if name in ('planet_radius', 'planet_mass'):
+            spec[name] = value
+        elif name == 'atm_min_pressure':
+            spec['pmin'] = value
+        elif name == 'atm_max_pressure':
+            spec['pmax'] = value
+        elif name in ('T', 'T_surface', 'T_top'):
+            spec['temperature'][name] = value
+        elif name == 'T_point1':
+            spec['temperature']['temperature_points'] = [value]
+        elif name == 'He_H2':
+            spec['ratio'] = value
+        else:
+            for g in spec['gases']:
+                if g['mol'] == name:
+                    g['mix'] = value
+            for c in spec['contributions']:
+                if name in c:
+                    c[name] = value
+    return spec
+
+
+TNAMES = ('T', 'T_surface', 'T_top', 'T_point1')
+
+
+def gen_reuse(rng, k):
+    base = gen_case(rng, [1, 2, 3, 2][k % 4] + 4 * (k % 2))
+    base['extended'] = False
+    names = ['planet_radius', 'planet_mass', 'atm_min_pressure', 'atm_max_pressure', 'He_H2']
+    t = base['temperature']
+    if t['type'] == 'isothermal':
+        names += ['T', 'T']
+    elif t['type'] == 'npoint':
+        names += ['T_surface', 'T_top', 'T_point1']
+    names += [g['mol'] for g in base['gases'] if g['type'] == 'constant']
+    for c in base['contributions']:
+        if c['type'] == 'clouds':
+            names.append('clouds_pressure')
+        if c['type'] == 'flatmie':
+            names.append('flat_mix_ratio')
+    cur = dict(planet_radius=base['planet_radius'], planet_mass=base['planet_mass'], atm_min_pressure=base['pmin'],
+               atm_max_pressure=base['pmax'], He_H2=base['ratio'], T=t.get('T'), T_surface=t.get('T_surface'),
+               T_top=t.get('T_top'), T_point1=(t.get('temperature_points') or [None])[0])
+    for g in base['gases']:
+        cur[g['mol']] = g['mix'] if g['type'] == 'constant' else None
+    for c in base['contributions']:
+        cur.update({kk: v for kk, v in c.items() if kk in ('clouds_pressure', 'flat_mix_ratio')})
+    steps = []
+    for _ in range(int(rng.integers(2, 4))):
+        step = {}
+        for name in rng.choice(names, size=int(rng.integers(1, 3)), replace=False):
+            name = str(name)
+            v = cur[name]
+            if name == 'planet_radius':
+                v = v * float(rng.uniform(0.8, 1.25))
+            elif name == 'planet_mass':
+                v = v * float(rng.uniform(0.8, 1.5))
+            elif name in ('atm_min_pressure', 'atm_max_pressure'):
+                v = v * float(10 ** rng.uniform(-0.7, 0.7))
+            elif name in TNAMES:
+                v = float(min(max(v * rng.uniform(0.6, 1.25), 120.0), 3400.0))
+            elif name == 'He_H2':
+                v = float(rng.uniform(0.05, 0.3))
+            elif name == 'clouds_pressure':
+                v = v * float(10 ** rng.uniform(-1, 1))
+            else:
+                v = float(min(v * 10 ** rng.uniform(-1, 1), 0.05))
+            cur[name] = v
+            step[name] = v
+        steps.append(step)
+    return dict(kind='reuse', base=base, steps=steps, new_path_method=base['new_path_method'])
+
+
+def eval_reuse(ctx, case):
+    spec = case['base']
+    try:
+        m, wn, depth, trans, p, contribs = run_real(spec)
+    except Exception as e:
+        ctx.violation('raises:' + type(e).__name__, 'TransmissionModel raised %r on a valid atmosphere' % (e,), case)
+        return
+    judge(ctx, case, spec, m, (wn, depth, trans, p, contribs), False, 'reuse:first-run')
+    for i, step in enumerate(case['steps']):
+        try:
+            spec = apply_step(spec, m, step)
+            obs = observe(m)
+        except Exception as e:
+            ctx.violation('raises-after-parameter-change:' + type(e).__name__,
+                          'model() raised %r after setting %s on a built model' % (e, sorted(step)), case)
+            return
+        nviol = len(ctx.violations)
+        judge(ctx, case, spec, m, obs, False, 'reuse:after-setters')
+        for kk in step:
+            ctx.bucket('setter:' + ('gas' if kk not in ('planet_radius', 'planet_mass', 'atm_min_pressure',
+                                                        'atm_max_pressure', 'He_H2', 'clouds_pressure',
+                                                        'flat_mix_ratio') and kk not in TNAMES else kk))
+        if len(ctx.violations) > nviol:
+            for v in ctx.violations[nviol:]:
+                v['key'] = 'stale-state:' + v['key']
+                v['what'] = 'after model[...] = value on a reused model (step %d %s): ' % (i + 1, sorted(step)) + v['what']
+            return
+
+
+def judge(ctx, case, spec, m, obs, do_scale, stream):
+    sm = small(spec)
+    wn, depth, trans, p, contribs = obs
     rp, rs, z, dz, zb, dens, n = p['rp'], p['rs'], p['z'], p['dz'], p['zb'], p['density'], p['nlayers']
     nwn = len(wn)
     new = bool(spec['new_path_method'])
@@ -174,14 +299,14 @@ def eval_case(ctx, spec, do_scale=True):
         tot = float(np.sum(np.abs(mpaths[l])))
         if len(ipaths[l]) != n - l or not C.close(ipaths[l], mpaths[l], rel=1e-9, abs_=1e-11 * tot):
             okp = False
-            ctx.mismatch('path_length[%s] vs Transmission.chord' % method, spec,
+            ctx.mismatch('path_length[%s] vs Transmission.chord' % method, case,
                          dict(layer=l, impl=ipaths[l], model=mpaths[l]))
             break
     ctx.disagreements_checked += 1
     for l in range(n):
         tot = float(np.sum(np.abs(opaths[l])))
         if len(ipaths) != n or len(ipaths[l]) != n - l or not C.close(ipaths[l], opaths[l], rel=1e-9, abs_=1e-11 * tot):
-            ctx.violation('path-length:' + method, 'chord lengths differ from the spherical-shell closed form', spec,
+            ctx.violation('path-length:' + method, 'chord lengths differ from the spherical-shell closed form', case,
                           dict(layer=l, impl=ipaths[l] if len(ipaths) > l else None, expected=opaths[l]))
             break
     # ---------------- spectrum: implementation vs Lean model
@@ -204,18 +329,18 @@ def eval_case(ctx, spec, do_scale=True):
         elif np.all(trans[l] <= E10 * (1 + 1e-9)) and np.all(trans[l] >= tfull[l] * (1 - 1e-7) - 1e-300):
             kinds['band'] += 1
         else:
-            ctx.mismatch('exp(-tau) vs Transmission.modelTrans (licensed relation)', spec,
+            ctx.mismatch('exp(-tau) vs Transmission.modelTrans (licensed relation)', case,
                          dict(layer=l, impl=trans[l], model_cut=tcut[l], model_full=tfull[l]))
             break
     ctx.bucket('rows:replica', kinds['replica'])
     ctx.bucket('rows:licensed-band-only', kinds['band'])
     ncutrows = int(np.sum(~np.all(np.isclose(tcut, tfull, rtol=1e-12, atol=0), axis=1)))
     ctx.bucket('rows:early-exit-changes-result', ncutrows)
-    ctx.check_close('depth vs Transmission.depth (with early exit), within the licensed band', depth, dcut, spec,
+    ctx.check_close('depth vs Transmission.depth (with early exit), within the licensed band', depth, dcut, case,
                     rel=1e-9, abs_=band)
     ctx.disagreements_checked += 1
     if not np.all((depth <= dfull * (1 + 1e-9)) & (depth >= dfull * (1 - 1e-9) - band)):
-        ctx.mismatch('depth vs uncut documented integral within exp(-10) band', spec,
+        ctx.mismatch('depth vs uncut documented integral within exp(-10) band', case,
                      dict(impl=depth, model_full=dfull, band=band))
     # ---------------- the property's own predicates, on the implementation only (numpy oracle)
     o_tau = tau_full(ipaths if okp else opaths, dens, contribs)
@@ -227,41 +352,43 @@ def eval_case(ctx, spec, do_scale=True):
     o_depth = doc_depth(rp, rs, z, dz, o_trans)
     tol = 1e-9
     if np.any(~np.isfinite(depth)) or np.any(~np.isfinite(trans)):
-        ctx.violation('non-finite', 'depth or transmittance not finite', spec, dict(depth=depth))
+        ctx.violation('non-finite', 'depth or transmittance not finite', case, dict(depth=depth))
         return
     for l in range(n):
         ok = trans_close(trans[l], o_trans[l]) or (np.all(trans[l] <= E10 * (1 + 1e-9)) and
                                                    np.all(trans[l] >= o_trans[l] * (1 - 1e-7) - 1e-300))
         if not ok:
             ctx.violation('integral-mismatch:' + method,
-                          'exp(-tau) differs from the documented slant integral beyond the tau>10 licence', spec,
+                          'exp(-tau) differs from the documented slant integral beyond the tau>10 licence', case,
                           dict(layer=l, impl=trans[l], expected=o_trans[l]))
             break
     if not np.all((depth <= o_depth * (1 + tol)) & (depth >= o_depth * (1 - tol) - o_band)):
-        ctx.violation('depth-mismatch:' + method, 'depth differs from the documented integral beyond the licence', spec,
+        ctx.violation('depth-mismatch:' + method, 'depth differs from the documented integral beyond the licence', case,
                       dict(impl=depth, expected=o_depth, band=o_band))
     if np.any(depth < o_bare * (1 - 1e-12)):
-        ctx.violation('below-bare', 'depth below the bare-planet value (Rp/Rs)^2', spec, dict(depth=depth, bare=o_bare))
+        ctx.violation('below-bare', 'depth below the bare-planet value (Rp/Rs)^2', case, dict(depth=depth, bare=o_bare))
     if np.any(depth > o_opaque * (1 + 1e-12)):
-        ctx.violation('above-opaque', 'depth above the value of an atmosphere opaque to its top', spec,
+        ctx.violation('above-opaque', 'depth above the value of an atmosphere opaque to its top', case,
                       dict(depth=depth, opaque=o_opaque))
     nothing = all(np.all(s == 0) for _, s in contribs)
     if nothing and (not C.close(depth, np.full(nwn, o_bare), rel=1e-13) or not np.all(trans == 1.0)):
-        ctx.violation('transparent-not-bare', 'nothing absorbs but depth != (Rp/Rs)^2', spec,
+        ctx.violation('transparent-not-bare', 'nothing absorbs but depth != (Rp/Rs)^2', case,
                       dict(depth=depth, bare=o_bare))
     if do_scale and not nothing:
         c = float(ctx.rng.choice([1.0, 1.5, 10.0, 1e3]))
         try:
             _, _, depth2, trans2, p2, _ = run_real(scaled_spec(spec, c))
             if np.any(depth2 < depth * (1 - tol) - o_band):
-                ctx.violation('scale-decreases', 'depth decreased when every cross-section was scaled by c >= 1', spec,
+                ctx.violation('scale-decreases', 'depth decreased when every cross-section was scaled by c >= 1', case,
                               dict(c=c, depth=depth, scaled=depth2))
             ctx.bucket('scaled-rerun')
         except Exception as e:
-            ctx.violation('raises-scaled:' + type(e).__name__, 'scaled model raised %r' % (e,), spec, dict(c=c))
+            ctx.violation('raises-scaled:' + type(e).__name__, 'scaled model raised %r' % (e,), case, dict(c=c))
     mixed = bool(np.any((trans > 1e-4) & (trans < 0.9999)))
-    ctx.case(key=(n, tuple(sorted(c['type'] for c in spec['contributions'])), spec.get('regime'), method) if mixed else None,
+    ctx.case(key=(n, tuple(sorted(c['type'] for c in spec['contributions'])), spec.get('regime'), method, stream) if mixed else None,
              sample=dict(sm, depth=depth[:2], model=dcut[:2]), bucket='regime:' + str(spec.get('regime')))
+    ctx.bucket('stream:' + stream)
+    ctx.bucket('extent:z_top/Rp' + ('<0.4' if zb[-1] < 0.4 * rp else '<1' if zb[-1] < rp else '>=1'))
     ctx.bucket('method:' + method)
     ctx.bucket('layers:' + ('2-4' if n < 5 else '5-15' if n < 16 else '16-40'))
     ctx.bucket('temperature:' + spec['temperature']['type'])
@@ -309,7 +436,10 @@ def run(ctx):
     FM.quiet()
     n = ctx.n(400, 12000)
     for k in range(n):
-        eval_case(ctx, gen_case(ctx.rng, k), do_scale=(k % 2 == 0))
+        if k % 5 == 4:
+            eval_case(ctx, gen_reuse(ctx.rng, k // 5))
+        else:
+            eval_case(ctx, gen_case(ctx.rng, k), do_scale=(k % 2 == 0))
     malformed(ctx)
     FM.reset_caches()
 
